@@ -21,6 +21,22 @@ def run(ctx):
         "str/float/Decimal/tuple results are immutable Python values",
     ]
     calls = sites = effs = 0
+    # hash(): a class body that defines __eq__ without __hash__ gets __hash__ = None on Python 3,
+    # whatever a base class or mixin provides: hash(obj) raises TypeError
+    from ..ctx import VERSIONS
+
+    for v in (2, 3, 4):
+        info = VERSIONS[v]
+        cls = ctx.repo.cls(info["mod"], info["cls"])
+        own = getattr(cls, "own_methods", cls.methods)
+        led.check(
+            not ("__eq__" in own and "__hash__" not in own) and "__hash__" in cls.methods,
+            "C18.total.hash",
+            "%s.%s::__hash__" % (info["mod"], info["cls"]),
+            cls.module.where(cls.node),
+            "%s defines __eq__ in its own body without __hash__ (or has no __hash__ at all): on Python 3 the class is unhashable, "
+            "hash(obj), set membership and dict keys raise TypeError" % info["cls"],
+        )
     for v in (2, 3, 4):
         c, s = RA.check_accessors(ctx, led, v)
         calls += c
